@@ -8,7 +8,9 @@
    Wrap.
    Symbolic (Section hypotheses, the trusted base of this file): the crypto
    libraries (crypto/ed25519, crypto/rsa PKCS#1 v1.5 + SHA-256, crypto/x509
-   PKCS#1 parsing) and the multibase codecs.  A key is an id `k : N` of an
+   PKCS#1 parsing).  The multibase codecs are Section variables too, but their
+   laws are theorems of the concrete BaseEnc / BaseDec functions (Properties_C14.v
+   states everything for those).  A key is an id `k : N` of an
    algorithm; `raw_sig a k m` is THE signature of m under k (both schemes are
    deterministic), accepted by `raw_verify` for k's public key only
    (unforgeability + uniqueness) and injective in (k, m). *)
@@ -87,11 +89,11 @@ Section Crypto.
   Variable b58enc : bstr -> bstr.
   Variable b58dec : bstr -> option bstr.
   Hypothesis b58dec_bytes : forall s b, b58dec s = Some b -> bytes_ok b.
-  Hypothesis b58_roundtrip : forall b, b58dec (b58enc b) = Some b.
+  Hypothesis b58_roundtrip : forall b, bytes_ok b -> b <> [] -> b58dec (b58enc b) = Some b.
   (* multibase.Encode(Base64pad, .) and multibase.Decode (any base) *)
   Variable mb64enc : bstr -> bstr.
   Variable mbdec : bstr -> option bstr.
-  Hypothesis mb_roundtrip : forall b, mbdec (mb64enc b) = Some b.
+  Hypothesis mb_roundtrip : forall b, bytes_ok b -> mbdec (mb64enc b) = Some b.
   (* x509.ParsePKCS1PublicKey succeeds / ParsePKCS1PrivateKey succeeds and the
      public half re-marshals (MarshalPKCS1PublicKey) to these bytes *)
   Variable pkcs1_pub_ok : bstr -> bool.
@@ -256,14 +258,16 @@ Section Crypto.
 
   (* Format / Parse of any decoded verifier: Parse(v.DID().String()) = v *)
   Theorem verifier_format_parse a b v :
-    verifier_decode a b = Some v ->
+    bytes_ok b -> verifier_decode a b = Some v ->
     exists s, verifier_format v = Ret s /\ verifier_parse a s = Some v.
   Proof.
-    intros H. pose proof (verifier_decode_did a b v H) as [Hd [Hwf _]].
+    intros Hb H. pose proof (verifier_decode_did a b v H) as [Hd [Hwf _]].
     exists (did_to_string_v (v_did v)). split; [apply did_to_string_total|].
     unfold verifier_parse. unfold Did.did_parse.
-    fold (Did.did_parse b58dec). rewrite (did_string_roundtrip b58enc b58dec b58_roundtrip) by exact Hwf.
-    rewrite Hd. cbn [did_bytes dstr]. exact H.
+    fold (Did.did_parse b58dec). rewrite (did_string_roundtrip b58enc b58dec b58_roundtrip).
+    - rewrite Hd. cbn [did_bytes dstr]. exact H.
+    - exact Hwf.
+    - intros _. rewrite Hd. exact Hb.
   Qed.
 
   Theorem signer_roundtrip a b s :
@@ -285,10 +289,11 @@ Section Crypto.
   Qed.
 
   Theorem signer_format_parse a b s :
-    signer_decode a b = Some s -> signer_parse a (signer_format s) = Some s.
+    bytes_ok b -> signer_decode a b = Some s -> signer_parse a (signer_format s) = Some s.
   Proof.
-    intros H. unfold signer_parse, signer_format. rewrite mb_roundtrip.
-    apply signer_roundtrip in H. destruct H as [_ [_ H]]. exact H.
+    intros Hb H. unfold signer_parse, signer_format.
+    apply signer_roundtrip in H. destruct H as [E [_ H]].
+    rewrite mb_roundtrip by (rewrite E; exact Hb). exact H.
   Qed.
 
   (* a decoded signer's verifier is a decoded verifier (so its DID is a did:key) *)
@@ -376,6 +381,8 @@ Section Crypto.
   Definition priv_material (a : alg) (k : N) : bstr :=
     match a with Ed25519 => priv_bytes Ed25519 k ++ pub_bytes Ed25519 k | RSA => priv_bytes RSA k end.
 
+  (* key material is a byte string *)
+  Hypothesis pub_bytes_ok : forall a k, kvalid a k = true -> bytes_ok (pub_bytes a k).
   Hypothesis ed_pub_len : forall k, kvalid Ed25519 k = true -> length (pub_bytes Ed25519 k) = 32%nat.
   Hypothesis ed_priv_len : forall k, kvalid Ed25519 k = true -> length (priv_bytes Ed25519 k) = 32%nat.
   Hypothesis rsa_pub_ok : forall k, kvalid RSA k = true -> pkcs1_pub_ok (pub_bytes RSA k) = true.
@@ -546,7 +553,9 @@ Section Crypto.
   Proof.
     intros Hk s. split; [apply signer_decode_of; exact Hk|].
     split; [reflexivity|]. split; [reflexivity|]. split; [reflexivity|]. split.
-    - destruct (verifier_format_parse a _ _ (verifier_decode_of a k Hk)) as [str [F P]].
+    - assert (Hvb : bytes_ok (verifier_bytes a k)).
+      { unfold verifier_bytes, tag_with. apply bytes_ok_app. split; [apply uvarint_bytes_ok, pub_code_lt | apply pub_bytes_ok; exact Hk]. }
+      destruct (verifier_format_parse a _ _ Hvb (verifier_decode_of a k Hk)) as [str [F P]].
       exists str. repeat split; assumption.
     - intros m Hfit. apply verify_never_cross; auto.
   Qed.
@@ -586,6 +595,7 @@ Module Toy.
   Definition pkcs1_priv_pub (b : bstr) : option bstr := Some [48; nth 1 b 0].
 
   Example hyps_satisfiable :
+    (forall a k, kvalid a k = true -> bytes_ok (pub_bytes a k)) /\
     (forall k, kvalid Ed25519 k = true -> length (pub_bytes Ed25519 k) = 32%nat) /\
     (forall k, kvalid Ed25519 k = true -> length (priv_bytes Ed25519 k) = 32%nat) /\
     (forall k, kvalid RSA k = true -> pkcs1_pub_ok (pub_bytes RSA k) = true) /\
@@ -598,6 +608,10 @@ Module Toy.
        raw_sig a k m = raw_sig a k' m' -> k = k' /\ m = m') /\
     sig_fits raw_sig Ed25519 7 [1; 2; 3].
   Proof.
+    split.
+    { intros a k Hk. unfold kvalid in Hk. apply N.ltb_lt in Hk. destruct a; cbn [pub_bytes].
+      - apply Forall_forall. intros x Hx. apply repeat_spec in Hx. subst. exact Hk.
+      - constructor; [reflexivity|]. constructor; [exact Hk | constructor]. }
     repeat split; try reflexivity.
     - destruct a; reflexivity.
     - unfold raw_verify, raw_sig. destruct a; cbn [pub_bytes keybyte repeat hd nth];
